@@ -87,6 +87,8 @@ class Recorder:
 	def refusal(self, cls, params, detail=None):
 		self.case(cls, params, "refusal", detail=detail)
 		self.count("refusal:" + cls)
+		if detail:
+			self.setadd("refusal_reasons", cls + ": " + str(detail)[:70], cap=60)
 
 	def inconclusive(self, cls, params, detail=None):
 		self.case(cls, params, "inconclusive", detail=detail)
